@@ -27,21 +27,21 @@ ALLF = "all (a, b) in f64 x f64 (incl. NaN, inf, subnormals)"
 
 # ---- C08 scalar operators: exec path -------------------------------------------------------
 k("c08_add_int", ["C08"], "complete", "a + b == (a + b) mod 2^64 (against 128-bit arithmetic)", domain=ALLI,
-  twins=["add.exec.int_wrap"], inputs=I2, probe="arith:+", functions=["add::exec"])
+  twins=["add.exec.int_wrap", "add.exec.safe"], inputs=I2, probe="arith:+", functions=["add::exec"])
 k("c08_subtract_int", ["C08"], "complete", "a - b wraps mod 2^64", domain=ALLI,
-  twins=["subtract.exec.int_wrap"], inputs=I2, probe="arith:-", functions=["subtract::exec"])
+  twins=["subtract.exec.int_wrap", "subtract.exec.safe"], inputs=I2, probe="arith:-", functions=["subtract::exec"])
 k("c08_multiply_int", ["C08"], "complete", "a * b wraps mod 2^64 (against the 128-bit product)", domain=ALLI,
-  twins=["multiply.exec.int_wrap"], inputs=I2, probe="arith:*", functions=["multiply::exec"])
+  twins=["multiply.exec.int_wrap", "multiply.exec.safe"], inputs=I2, probe="arith:*", functions=["multiply::exec"])
 k("c08_unary_minus_int", ["C08"], "complete", "-a wraps mod 2^64", domain="all a in i64", inputs=("i64",),
   probe="unary:-", functions=["unary_minus::exec"])
 k("c08_divide_int_cheap", ["C08"], "complete",
   "/ : ZeroDivision iff b == 0, nothing else errs; b=1, b=-1 (incl. MIN/-1 == MIN), a=0, sign rule of truncation",
   domain=ALLI, inputs=I2, probe="arith:/", functions=["divide::exec"],
-  twins=["divide.exec.zero_iff_error", "divide.exec.error_kind", "divide.exec.min_by_minus_one"])
+  twins=["divide.exec.zero_iff_error", "divide.exec.error_kind", "divide.exec.min_by_minus_one", "divide.exec.safe"])
 k("c08_modulo_int_cheap", ["C08"], "complete",
   "% : ZeroModulo iff b == 0, nothing else errs; b=+-1 gives 0 (incl. MIN % -1), sign of the dividend",
   domain=ALLI, inputs=I2, probe="arith:%", functions=["modulo::exec"],
-  twins=["modulo.exec.zero_iff_error", "modulo.exec.error_kind", "modulo.exec.min_by_minus_one"])
+  twins=["modulo.exec.zero_iff_error", "modulo.exec.error_kind", "modulo.exec.min_by_minus_one", "modulo.exec.safe"])
 k("c08_pow_int_small_exponents", ["C08"], "bounded", "a ** e for e in 0..=2 equals the wrapped product",
   domain="all a in i64", bound="exponent in {0,1,2}", inputs=("i64",), probe="arith:**", functions=["pow::exec"])
 k("c08_pow_negative_exponent", ["C08"], "bounded", "a ** e errs NegativeExponent for e in {-1,-2,MIN}",
@@ -56,15 +56,16 @@ k("c08_lshift", ["C08"], "complete", "<< : Ok(logical shift) iff 0 <= s <= 63 el
 k("c08_rshift", ["C08"], "complete", ">> : Ok(arithmetic shift) iff 0 <= s <= 63 else OverflowShift", domain=ALLI,
   inputs=I2, probe="arith:>>", functions=["rshift::exec"])
 k("c08_bitwise_int", ["C08"], "complete", "& | ^ ! are bitwise on int", domain=ALLI, inputs=I2, probe="bitwise",
-  twins=["xor.exec.int_bitwise", "not.exec.int_bitwise_complement"],
+  twins=["xor.exec.int_bitwise", "not.exec.int_bitwise_complement", "xor.exec.safe", "not.exec.safe"],
   functions=["bitwise_and::exec", "bitwise_or::exec", "xor::exec", "not::exec"])
 k("c08_bitwise_bool", ["C08"], "complete", "& | ^ ! are the logical operations on bool",
   domain="all (a, b) in bool x bool", inputs=("bool", "bool"), probe="bitwise",
-  twins=["xor.exec.bool_logical", "not.exec.bool_negation"],
+  twins=["xor.exec.bool_logical", "not.exec.bool_negation", "xor.exec.safe", "not.exec.safe"],
   functions=["bitwise_and::exec", "bitwise_or::exec", "xor::exec", "not::exec"])
 k("c08_compare_int", ["C08"], "complete", "> >= < <= are the signed comparisons", domain=ALLI, inputs=I2,
   twins=["greater.exec.int_signed_comparison", "greater_equal.exec.int_signed_comparison",
-         "lower.exec.int_signed_comparison", "lower_equal.exec.int_signed_comparison"],
+         "lower.exec.int_signed_comparison", "lower_equal.exec.int_signed_comparison",
+         "greater.exec.safe", "greater_equal.exec.safe", "lower.exec.safe", "lower_equal.exec.safe"],
   probe="compare", functions=["greater::exec", "greater_equal::exec", "lower::exec", "lower_equal::exec"])
 k("c08_compare_float", ["C08"], "complete", "> >= < <= are the IEEE-754 comparisons (false on NaN)", domain=ALLF,
   inputs=F2, probe="compare", functions=["greater::exec", "greater_equal::exec", "lower::exec", "lower_equal::exec"])
